@@ -173,7 +173,8 @@ def main(tier):
                "hold iff the count relation holds, given the callee contracts (pop_count, ripple_carry: C12), and that every "
                "auxiliary variable is defined exactly once (Lemma DE => unique extension). Bounded in (n,k) only (tier S). "
                "In addition pyvc.wp proves on the real source, for EVERY n and k, that under the definitional clauses the asserted unit clauses hold iff the count "
-               "stands in the relation to k (assert_k_of_n and _inequality_assertion; pop_count, _make_same_length and the two's complement helper by contract). "
+               "stands in the relation to k (assert_k_of_n and _inequality_assertion; _make_same_length and the two's complement helper are proved against the contracts "
+               "used there, pop_count for symbolic n by contract). "
                "combine_cnf_with_requests and to_generation_request are checked on the real code over request lists x all "
                "assignments (tier E). Counterexamples are replayed on the real code with pycryptosat.")
     ck.under_contract(*[QUAL + n for n in ("assert_k_of_n", "assert_k_less_than_n", "assert_k_greater_than_n", "_inequality_assertion",
@@ -195,7 +196,7 @@ def main(tier):
     run_plan(ck, plan, budget_ms(tier), native_limit=7 if not big else 9, prop_prefix="C10.")
     # int_to_binary, and assert_k_of_n for EVERY n and k (pop_count by contract): under the definitional clauses the asserted units hold iff exactly k inputs are true
     # and _inequality_assertion (fewer than / more than k) for every n and k: under the definitions the final unit clause holds iff count < k (count > k)
-    run_wp(ck, ["int_to_binary", "assert_k_of_n", "inequality_assertion", "make_same_length"], budget_ms(tier), prefix="C10.")
+    run_wp(ck, ["int_to_binary", "assert_k_of_n", "inequality_assertion", "make_same_length", "convert_to_negative_twos_complement"], budget_ms(tier), prefix="C10.")
     dispatch_checks(ck, tier)
     int_to_binary_native(ck, tier)
     ck.trust("z3 / cvc5", "pycryptosat (native replay, dispatch check)", "CPython semantics of the executed encoder code")
